@@ -180,25 +180,46 @@ def _depths(texts_):
 
 
 def rename_map(code0, code1, sm=None):
-    """Consistent renaming of locals between two token lists: identifier X of code0 is aligned with identifier Y of code1 at
-    every 1-1 replaced occurrence, X does not occur in code1 and Y does not occur in code0.  -> {X: Y}"""
+    """Consistent renaming of locals between two token lists: identifier X of code0 is aligned with identifier Y of code1
+    (1-1 replaced occurrences, and occurrences inside restructured blocks whose token SHAPE lines up), X does not occur in
+    code1 and Y does not occur in code0.  When X lines up with several names the one with strictly most occurrences wins.
+    -> {X: Y}"""
     a = texts(code0)
     b = texts(code1)
     if sm is None:
         sm = difflib.SequenceMatcher(None, a, b, autojunk=False)
-    ren = {}
-    bad = set()
+    votes = {}
+
+    def vote(ta, tb):
+        if ta.kind == "id" and tb.kind == "id" and ta.text != tb.text and ta.text not in KEYWORDS and tb.text not in KEYWORDS:
+            votes.setdefault(ta.text, {}).setdefault(tb.text, 0)
+            votes[ta.text][tb.text] += 1
+
+    def shape(toks_):
+        return [("\u00a7" if (t.kind == "id" and t.text not in KEYWORDS) else t.text) for t in toks_]
     for tag, i1, i2, j1, j2 in sm.get_opcodes():
-        if tag == "replace" and i2 - i1 == j2 - j1:
+        if tag != "replace":
+            continue
+        if i2 - i1 == j2 - j1:
             for k in range(i2 - i1):
-                ta, tb = code0[i1 + k], code1[j1 + k]
-                if ta.kind == "id" and tb.kind == "id" and ta.text != tb.text:
-                    if ren.get(ta.text, tb.text) != tb.text:
-                        bad.add(ta.text)
-                    ren[ta.text] = tb.text
+                vote(code0[i1 + k], code1[j1 + k])
+        elif (i2 - i1) * (j2 - j1) <= 40000:
+            # align with identifiers abstracted away, so that `f(&d1, x)` lines up with `f(&ver1, x)` even when statements
+            # were inserted or split around it
+            sm2 = difflib.SequenceMatcher(None, shape(code0[i1:i2]), shape(code1[j1:j2]), autojunk=False)
+            for t2, a1, a2, b1, b2 in sm2.get_opcodes():
+                if t2 == "equal" and a2 - a1 >= 3:
+                    for k in range(a2 - a1):
+                        vote(code0[i1 + a1 + k], code1[j1 + b1 + k])
     sa, sb = set(a), set(b)
-    ren = {x: y for x, y in ren.items() if x not in bad and x not in sb and y not in sa and x not in KEYWORDS and y not in KEYWORDS}
-    # injective
+    ren = {}
+    for x, ys in votes.items():
+        ranked = sorted(ys.items(), key=lambda kv: -kv[1])
+        if len(ranked) > 1 and ranked[0][1] == ranked[1][1]:
+            continue
+        y = ranked[0][0]
+        if x not in sb and y not in sa:
+            ren[x] = y
     if len(set(ren.values())) != len(ren):
         return {}
     return ren
@@ -586,9 +607,32 @@ class Unit:
                 anns.insert(0, (0, lead))
         merged, drift = merge(code0, anns, code1)
         reg.drift = drift
+        # Loops of extracted functions are verified WITHOUT loop isolation: the facts established before a loop (bounds bound to
+        # locals, ghost snapshots) stay visible inside it, so a refactoring that moves a sub-expression into a `let` in front
+        # of a loop does not invalidate the proof (DESIGN.md section 7).  Lemmas and library code keep Verus' default.
+        texts_ = [t.text for _, t in merged]
+        if os.environ.get("VERIF_LOOP_ISOLATION", "off") == "off" and "fn" in texts_ and any(x in texts_ for x in ("for", "while", "loop")) \
+                and "loop_isolation" not in texts_ and "invariant_except_break" not in texts_ and reg.path and reg.path[-2:-1] == ["fn"] \
+                and not _has_loop_ensures(texts_):
+            line = merged[0][1].line if merged else 0
+            attr = [("ann", Tok("punct", "#", line)), ("ann", Tok("punct", "[", line, sp=False)), ("ann", Tok("id", "verifier", line, sp=False)),
+                    ("ann", Tok("punct", "::", line, sp=False)), ("ann", Tok("id", "loop_isolation", line, sp=False)), ("ann", Tok("punct", "(", line, sp=False)),
+                    ("ann", Tok("id", "false", line, sp=False)), ("ann", Tok("punct", ")", line, sp=False)), ("ann", Tok("punct", "]", line, sp=False))]
+            merged = attr + merged
         if canary:
             merged = insert_canaries(merged, reg)
         return merged
+
+
+def _has_loop_ensures(texts_):
+    """an `ensures` clause that belongs to a loop (it follows a loop keyword): such loops must keep loop isolation"""
+    seen_loop = False
+    for t in texts_:
+        if t in ("for", "while", "loop"):
+            seen_loop = True
+        elif t == "ensures" and seen_loop:
+            return True
+    return False
 
 
 def insert_canaries(merged, reg):
